@@ -777,6 +777,16 @@ def run(run: Run):
     run.rule('C06.R12', 'a translator result that may be a number only reaches consumers that format it')
     run.guard('C06.R12', r12_results_are_text, run, src, g, em)
     run.floor('C06.R12', 3)
+    from .common import borrow as _borrow13
+    from . import c09 as _c09
+    run.rule('C06.R13', 'after a rejected request the facade answers the next request for the current settings: a library exception '
+                        'again, never None, a stale class or a foreign exception (shared with C09.R1)')
+    _borrow13(run, 'C06.R13', _c09.r1_any, src)
+    run.floor('C06.R13', 30)
+    from . import lexer_eval as _lx
+    run.rule('C06.R14', 'a formula that does not fit the grammar is rejected with the parser exception wherever it ends (shared with C05.R2)')
+    run.guard('C06.R14', _lx.parser_obligations, run, 'C06.R14', src, g, _lx.PARSE_PROBES[20:])
+    run.floor('C06.R14', 10)
     run.floor('C06.R11', 6)
     run.floor('C06.R10', 2)
     run.floor('C06.R1', 15)
